@@ -306,13 +306,14 @@ def assign_drivers(raws, drivers, prefix, cli=0):
             drv = "secret"      # memory storage lives in the dying process: no crash / storage-fault replay on it
         sc = vlib.tlc_scenario_to_harness(r, "%s%d" % (prefix, i), drv)
         # a share of the scenarios is driven through the command line (pkg/cmd: flag parsing and wiring)
-        needs_cli = any(st.get("flags", {}).get("install") for st in sc["steps"] if "op" in st)   # --install exists only in pkg/cmd
-        if needs_cli or (cli and (i % cli == 0) and "sched" not in sc):
-            for st in sc["steps"]:
-                if "op" in st:
-                    st["via"] = "cli"
-                    st["flags"].pop("cancelled", None)
-                    st["flags"].pop("postRender", None)
+        whole = bool(cli and (i % cli == 0) and "sched" not in sc)
+        for st in sc["steps"]:
+            # --install exists only in pkg/cmd: such a step always goes through the command line, the others follow
+            # the share chosen for the scenario
+            if "op" in st and (whole or st.get("flags", {}).get("install")):
+                st["via"] = "cli"
+                st["flags"].pop("cancelled", None)
+                st["flags"].pop("postRender", None)
         for st in sc["steps"]:
             if "op" in st and st.get("via") != "cli":
                 st["flags"].pop("tplDry", None)       # a spelling of the command line only
